@@ -19,7 +19,7 @@ Every rewrite keeps the line number of the statement it came from.  Nothing here
 import ast
 import copy
 
-from .vocab import FUNCTIONS as VOCAB_FUNCS, NAMES as VOCAB_NAMES
+from .vocab import FUNCTIONS as VOCAB_FUNCS, NAMES as VOCAB_NAMES, PARAMS as VOCAB_PARAMS
 
 ONCE = '__once'
 
@@ -87,6 +87,8 @@ def is_simple(node):
     if isinstance(node, ast.Subscript):
         return is_simple(node.value) and isinstance(node.slice, ast.Constant)
     if isinstance(node, ast.UnaryOp) and isinstance(node.operand, ast.Constant):
+        return True
+    if isinstance(node, ast.Call) and _dotted(node.func) == 'type' and len(node.args) == 1 and isinstance(node.args[0], ast.Name) and not node.keywords:
         return True
     return False
 
@@ -282,6 +284,7 @@ class Canon(object):
 
     def _canon_function(self, fn, cls, m, outer_first=None):
         self.outer_first = outer_first
+        self._new_default_params(fn)
         self._match_to_if(fn)
         self._subst_consts(fn, cls, m)
         self._stmt_comprehensions(fn)
@@ -302,6 +305,67 @@ class Canon(object):
         for n in list(walk_scope(fn)):
             if isinstance(n, (ast.FunctionDef, ast.AsyncFunctionDef)) and n is not fn:
                 self._canon_function(n, cls, m, outer_first=mine)
+
+    # ---------------------------------------------------------------- new optional parameters nobody passes
+    def _passed_somewhere(self, fname, pname, index):
+        """Does any call in the package to a function of this name pass the parameter (by keyword, by position, or through * / **)?"""
+        key = (fname, pname, index)
+        cache = self.__dict__.setdefault('_passed_cache', {})
+        if key in cache:
+            return cache[key]
+        calls = self.__dict__.get('_calls_by_name')
+        if calls is None:
+            calls = {}
+            for m in self.prog.modules.values():
+                for n in ast.walk(m.tree):
+                    if isinstance(n, ast.Call):
+                        nm = n.func.attr if isinstance(n.func, ast.Attribute) else n.func.id if isinstance(n.func, ast.Name) else None
+                        if nm is not None:
+                            calls.setdefault(nm, []).append(n)
+            self._calls_by_name = calls
+        res = False
+        for c in calls.get(fname, []):
+            if any(k.arg == pname or k.arg is None for k in c.keywords) or any(isinstance(a, ast.Starred) for a in c.args) or \
+                    (index is not None and len(c.args) > index):
+                res = True
+                break
+        cache[key] = res
+        return res
+
+    def _new_default_params(self, fn):
+        """A defaulted parameter that the reference tree does not have and that no call site in the package passes: the function
+        is specialised to the default (the parameter is replaced by its literal default and the tests it decides are folded)."""
+        known = VOCAB_PARAMS.get(fn.name)
+        if known is None:
+            return
+        a = fn.args
+        pos = a.posonlyargs + a.args
+        cands = []
+        ndef = len(a.defaults)
+        for i, (x, d) in enumerate(zip(pos[len(pos) - ndef:], a.defaults)):
+            cands.append((x.arg, d, len(pos) - ndef + i))
+        for x, d in zip(a.kwonlyargs, a.kw_defaults):
+            if d is not None:
+                cands.append((x.arg, d, None))
+        assigned = {n.id for n in walk_scope(fn) if isinstance(n, ast.Name) and isinstance(n.ctx, (ast.Store, ast.Del))}
+        is_method = bool(pos) and pos[0].arg in ('self', 'cls', 'mcs')
+        loads = {}
+        for name, d, idx in cands:
+            if name in known or name in assigned:
+                continue
+            if not (isinstance(d, ast.Constant) or (isinstance(d, ast.UnaryOp) and isinstance(d.operand, ast.Constant))):
+                continue
+            call_idx = None if idx is None else (idx - 1 if is_method else idx)
+            if self._passed_somewhere(fn.name, name, call_idx):
+                continue
+            loads[name] = d
+        if not loads:
+            return
+        sub = Subst(loads=loads)
+        fn.body = [sub.visit(st) for st in fn.body]
+        _fold_constant_tests(fn)
+        _fill_empty(fn)
+        self.stats['consts'] += len(loads)
 
     def _first(self, fn, cls):
         """Name that denotes the receiver (instance / class) inside fn, or None."""
@@ -456,7 +520,16 @@ class Canon(object):
                     isinstance(f.value.args[0], ast.Name) and f.value.args[0].id == first:
                 owner = cls
             if owner is None:
-                return None
+                # <simple expr>.newmethod(...): a method name the reference tree does not have and the program defines exactly once
+                # (e.g. a new accessor on a field object reached through self.keymaterial) is that one definition
+                if not is_simple(f.value):
+                    return None
+                defs = [c.methods[f.attr] for c in self.prog.all_classes() if f.attr in c.methods]
+                if len(defs) != 1 or defs[0].node.decorator_list:
+                    return None
+                if any(f.attr in mm.functions for mm in self.prog.modules.values()):
+                    return None
+                return defs[0].node, f.value, 'method'
             fi = owner.find_method(f.attr)
             if fi is None:
                 return None
@@ -471,7 +544,9 @@ class Canon(object):
                 return fi.node, None, 'static'
             if 'classmethod' in decs:
                 if recv is not None:
-                    return None          # cls would be type(self): keep it simple
+                    # self.helper(..) of a classmethod: cls is type(self)
+                    tcall = ast.Call(func=ast.Name(id='type', ctx=ast.Load()), args=[ast.Name(id=recv.id, ctx=ast.Load())], keywords=[])
+                    return fi.node, tcall, 'method'
                 return fi.node, f.value, 'method'
             if recv is None:
                 # K.m(obj, ...) unbound call
@@ -1083,6 +1158,85 @@ def _plain_target(t):
     if isinstance(t, (ast.Tuple, ast.List)):
         return all(_plain_target(e) for e in t.elts)
     return isinstance(t, (ast.Name, ast.Attribute))
+
+
+def _const_truth(e):
+    """True / False when the expression is a literal whose truth is known, else None."""
+    if isinstance(e, ast.Constant):
+        return bool(e.value)
+    if isinstance(e, ast.UnaryOp) and isinstance(e.op, ast.Not):
+        v = _const_truth(e.operand)
+        return None if v is None else (not v)
+    if isinstance(e, ast.Compare) and len(e.ops) == 1 and isinstance(e.left, ast.Constant) and isinstance(e.comparators[0], ast.Constant):
+        l, r, op = e.left.value, e.comparators[0].value, e.ops[0]
+        try:
+            if isinstance(op, ast.Is):
+                return l is r if (l is None or r is None or isinstance(l, bool) or isinstance(r, bool)) else None
+            if isinstance(op, ast.IsNot):
+                return l is not r if (l is None or r is None or isinstance(l, bool) or isinstance(r, bool)) else None
+            if isinstance(op, ast.Eq):
+                return l == r
+            if isinstance(op, ast.NotEq):
+                return l != r
+        except Exception:
+            return None
+    if isinstance(e, ast.BoolOp):
+        vals = [_const_truth(v) for v in e.values]
+        if isinstance(e.op, ast.And):
+            if any(v is False for v in vals):
+                return False
+            if all(v is True for v in vals):
+                return True
+        else:
+            if any(v is True for v in vals):
+                return True
+            if all(v is False for v in vals):
+                return False
+    return None
+
+
+def _fold_constant_tests(fn):
+    """if <literal test>: A else: B -> the arm taken; x if <literal> else y -> the arm; `c and X` / `c or X` with a literal c."""
+    class F(ast.NodeTransformer):
+        def visit_FunctionDef(self, node):
+            return self.generic_visit(node) if node is fn else node
+
+        def visit_If(self, node):
+            self.generic_visit(node)
+            t = _const_truth(node.test)
+            if t is True:
+                return node.body
+            if t is False:
+                return node.orelse or None
+            return node
+
+        def visit_IfExp(self, node):
+            self.generic_visit(node)
+            t = _const_truth(node.test)
+            if t is True:
+                return node.body
+            if t is False:
+                return node.orelse
+            return node
+
+        def visit_BoolOp(self, node):
+            self.generic_visit(node)
+            vals = list(node.values)
+            if isinstance(node.op, ast.Or):
+                while len(vals) > 1 and _const_truth(vals[0]) is False:
+                    vals.pop(0)
+                if _const_truth(vals[0]) is True:
+                    return vals[0]
+            else:
+                while len(vals) > 1 and _const_truth(vals[0]) is True:
+                    vals.pop(0)
+                if _const_truth(vals[0]) is False:
+                    return vals[0]
+            if len(vals) == 1:
+                return vals[0]
+            node.values = vals
+            return node
+    F().visit(fn)
 
 
 def _always_leaves(stmts):
